@@ -193,6 +193,10 @@ def run(ctx):
     ctx.count(len(hs))
     ctx.extra["collection_sequences_replayed"] = len(hs)
     ctx.validate(SPEC, "CollectionTrace", "CollectionTrace.cfg", ctraces, cases=[{"collection_ops": h} for h in hs], name="collection-sequences", chunk=2500)
+    # ---- extension: the configuration layer (specs/Config; A-clauses only)
+    from harness.props import ext_config
+
+    ext_config.run_ext(ctx)
 
 
 COLL = {"c1": ("a", ["x"]), "c2": ("b", ["x", "y"]), "c3": ("a", ["y"]), "c4": ("c", [])}
